@@ -255,6 +255,52 @@ pub fn run(ctx: &mut Ctx) {
             }
         }
     }
+    // commentary is no part of the program: every program with at most one deviation that parses, written again
+    // with each member of the trivia menu and each comment shape (runs of 2 to 7 stars, stars before the closing and
+    // after the opening parenthesis, parentheses and quotes inside) at every gap where trivia may stand, must give
+    // the tree of the plain text — nothing between two comments may be taken for commentary
+    {
+        use crate::lex::{spell_with, Glue};
+        let mut menu: Vec<(String, String)> = crate::corpus::trivia_menu().into_iter().filter(|(_, t)| t.contains("(*")).map(|(n, t)| (n.to_string(), t.to_string())).collect();
+        for k in 2..=7usize {
+            menu.push((format!("stars-{}", k), format!(" ({}) ", "*".repeat(k))));
+        }
+        for k in 1..=4usize {
+            menu.push((format!("closing-stars-{}", k), format!(" (* x {}) ", "*".repeat(k))));
+            menu.push((format!("opening-stars-{}", k), format!(" ({} x *) ", "*".repeat(k))));
+            menu.push((format!("closing-stars-tight-{}", k), format!(" (*x{}) ", "*".repeat(k))));
+        }
+        for (n, t) in [("paren-inside", " (* ( ) *) "), ("quote-inside", " (* ' *) "), ("double-quote-inside", " (* \" *) "), ("dollar-inside", " (* $' *) "), ("slashes-inside", " (* // *) "), ("star-paren-star", " (* *)(* *) "), ("code-inside", " (* a := 1; *) "), ("keyword-inside", " (* END_VAR END_FUNCTION_BLOCK *) ")] {
+            menu.push((n.to_string(), t.to_string()));
+        }
+        let hosts: Vec<&gram::Case> = cases.iter().filter(|c| c.labels.len() <= 1).collect();
+        let jobs: Vec<(usize, usize)> = (0..hosts.len()).flat_map(|h| (0..menu.len()).map(move |m| (h, m))).collect();
+        let res: Vec<Option<(String, String)>> = jobs
+            .par_iter()
+            .map(|(h, m)| {
+                let c = hosts[*h];
+                let plain = front::parse(&c.text(), "case.st").ok()?;
+                let mt = &menu[*m].1;
+                let text = spell_with(&c.lx.v, mt, mt, &|_, g| if g == Glue::Hard { String::new() } else { mt.clone() }).text;
+                match crate::util::catch(|| front::parse(&text, "case.st")) {
+                    Err(p) => Some((format!("panic@{}", p.loc), text)),
+                    Ok(Err(d)) => Some((format!("rejected({})", d.code), text)),
+                    Ok(Ok(lib)) if lib != plain || !nt::diff(&nt::library(&plain), &nt::library(&lib)).is_empty() => Some(("tree-differs".to_string(), text)),
+                    Ok(Ok(_)) => None,
+                }
+            })
+            .collect();
+        for ((h, m), r) in jobs.iter().zip(res.iter()) {
+            ctx.evaluations += 1;
+            ctx.transitions += 1;
+            if let Some((sym, text)) = r {
+                ctx.fail(&format!("commentary-at-every-gap/{}/{}#{}", menu[*m].0, hosts[*h].group, sym), &format!("{} with `{}` at every gap: {} :: {}", hosts[*h].id(), menu[*m].1.trim(), sym, crate::util::short(text, 200)), json!({"mode":"text-vs-plain","text": text, "plain": hosts[*h].text()}));
+            } else {
+                ctx.outcome("commentary at every gap: same tree");
+            }
+        }
+        ctx.bounds.insert("commentary_at_every_gap".into(), json!(format!("{} programs x {} comment shapes", hosts.len(), menu.len())));
+    }
     // literals: the structured literal space of C09 (values are part of the tree the parser returns)
     let lits = crate::checks::c09::literals();
     let lit_res: Vec<Option<(String, String)>> = lits.par_iter().map(crate::checks::c09::judge).collect();
@@ -312,6 +358,16 @@ pub fn replay(case: &Value) -> Result<String, String> {
         return match front::parse(text, "case.st") {
             Ok(_) => Ok("the text parses".into()),
             Err(d) => Err(format!("rejected with {}", d.code)),
+        };
+    }
+    if case["mode"] == json!("text-vs-plain") {
+        let text = case["text"].as_str().ok_or("text")?;
+        let plain = front::parse(case["plain"].as_str().ok_or("plain")?, "case.st").map_err(|d| format!("the plain text is rejected with {}", d.code))?;
+        return match crate::util::catch(|| front::parse(text, "case.st")) {
+            Err(p) => Err(format!("panicked at {}", p.loc)),
+            Ok(Err(d)) => Err(format!("rejected with {}", d.code)),
+            Ok(Ok(lib)) if lib != plain || !nt::diff(&nt::library(&plain), &nt::library(&lib)).is_empty() => Err("the tree differs from the tree of the plain text".into()),
+            Ok(Ok(_)) => Ok("same tree as the plain text".into()),
         };
     }
     if case["mode"] == json!("text-with-option") {
